@@ -255,7 +255,7 @@ PROPS = {
              "(b) a trapezoid vs its two halves (horizontal cut; cut along a line between the edges), (c) pixel offset vs translated coordinates, (d) add_triangles vs the two-trapezoid decomposition, "
              "(e) composite_trapezoids/triangles (14 operators, a1/a4/a8 masks, clips, direct ADD route) vs rasterising into a mask built by the monitor and compositing it, (f) add_trapezoids vs a rasterize loop: all bit-exact; "
              "edges of every slope class (vertical, dy = e, slivers, very slanted bands, endpoints up to +-32000 px away); evaluations = pixels compared; a cell = (depth, size, shape) / (mode, image content)",
-        floors={"any": {"pixels_covered": 100000, "metamorphic_cases": 20000, "composite_cases": 8000, "labels:meta_modes": 12, "labels:composite_op_mask": 60}},
+        floors={"any": {"pixels_covered": 100000, "metamorphic_cases": 20000, "composite_cases": 8000, "labels:meta_modes": 14, "labels:composite_op_mask": 60}},
         assumptions=["sample grid from the Render specification constants; edges as exact rationals in 128-bit integers", "the 2/65536 ambiguity band reflects the library's snapping of edges to 16.16"],
     ),
 }
